@@ -213,10 +213,13 @@ def gen_history(rng, p, nsteps, mode='td', probes=True):
             sess = ['S', '1', 'b', str(len(ch))] + [str(r) for r in ch]
             steps.append(sess)
             meta['bu'].add(len(steps) - 1)
+            bu_idx = len(steps) - 1
+            if probes and p.uses_failing and rng.random() < 0.6:
+                steps.append(['F', '0'])     # checkers stop failing before the probe: everything must be up to date
             if probes:
                 # probe: require every task; must execute nothing for tasks that were known, and equal a fresh build
                 steps.append(['S', str(ntasks)] + sum((['q', str(t)] for t in range(ntasks)), []))
-                meta['probe'][len(steps) - 1] = len(steps) - 2
+                meta['probe'][len(steps) - 1] = bu_idx
         first = False
     return steps, meta
 
